@@ -27,8 +27,8 @@ CLAIMED = {
          "2 operations x 2 oids and 3 operations x 2 oids quick (3 x 3 and table growth to 256 slots thorough); oids with fixed distinct low 4 bits and symbolic upper 60 bits in the history obligations; command layer entered with the peer uid directly; replies on the client fd, GET /queue and /sched rendering are outside.", "symbolic command histories against a reference map", "6 C11"),
  'C12': ("task_cb/chld_cb/run_task with symbolic limits under symbolic schedules of timer expiries and child exits; the harness keeps the ground truth of really running executions.",
          "1-2 tasks, 3-4 events quick (6 thorough), limits <= 3 or unset; libev/spawn stand-ins; child-watcher pool replaced by a separate-objects allocator.", "symbolic event schedules against a ground-truth counter", "6 C12"),
- 'C13': ("prep_task() over all 32 output configurations with descriptors tagged by the object they refer to; the sinks reached by fd 1 / fd 2 through the plan are compared with the README table; working directory and stdin likewise.",
-         "descriptor plan only: real process execution, pipe capacity, partial splice/sendfile, exit status/signals, sendmail and the journal need a running child and kernel and are outside.", "tagged-descriptor data-flow model of the real plan", "6 C13"),
+ 'C13': ("prep_task() over all 32 output configurations with descriptors tagged by the object they refer to; the sinks reached by fd 1 / fd 2 through the plan are compared with the README table; working directory and stdin likewise. The data pump data_cb() is executed against a kernel stand-in (mail file as a log of appended segments; splice amounts, sendfile partial transfers and the order of the two watchers symbolic): each tee file receives exactly its own stream's bytes, in order.",
+         "descriptor plan: no failing system call; pump: 3 callback invocations quick (4 thorough), <= 1000 bytes per splice, HAVE_SPLICE+HAVE_SENDFILE path of this build; real process execution, pipe capacity, exit status/signals, sendmail and the journal need a running child and kernel and are outside.", "tagged-descriptor data-flow model of the real plan + segment-log model of the mail file", "6 C13"),
  'C14': ("The limit L (1 s .. 30 d) is a solver variable at every hop: vtodoify() DURATION line, idiff_strp of PT<n>S, make_task() classification, echsx() argument of alarm() for TIMEOUT and DUE requests.",
          "signal delivery and the kill itself are outside; stand-ins for alarm/time/setuid/sigaction; DTEND->duration is C08's diff.", "per-hop conversion obligations", "6 C14"),
  'C16': ("refill()/next_evrrul() with the cache reduced to 2-4 (hook) so that pops cross refill boundaries: strictly increasing, >= DTSTART, <= UNTIL, <= COUNT, peek purity, and restart consistency against one long direct fill.",
